@@ -13,6 +13,8 @@ import (
 	"sort"
 	"strings"
 	"time"
+	"unicode"
+	"unicode/utf8"
 
 	"github.com/AdguardTeam/golibs/hostsfile"
 	"github.com/AdguardTeam/golibs/netutil"
@@ -39,7 +41,7 @@ var nastyStrings = []string{
 	"example.org", "_srv._tcp.example.org", "xn--", "xn--a.b", "İn-addr.arpa", "\xff\xfe", "a\x00b", "\"", "\"\"", "null", "{}",
 	"http://u:p@h/p?q#f", "#", "//", "/%2f^", "1h0m0s", "-1ns", "9223372036854775807ns", "1.2.3.4/33", "::/129", "1.2.3.0/24",
 	"_a--b", "_my--svc._tcp.example.com", "a--b.example", "Θεός", "θ", "ϑx", "Ιι", "Тт", "ᲄ", "the Θεός of the ancient Greeks", "DISK", "ſs", "Kk",
-	" \t# c", "1.2.3.4 a b # c", "1.2.3.4\tA a", "::1 localhost", "a,b , ,c", "K", "ſ", "0.0.0.0.0.0.0.0.0.0.0.0.0.0.0.0.0.0.0.0.0.0.0.0.0.0.0.0.0.0.0.0.ip6.arpa",
+	" \t# c", "1.2.3.4 a b # c", "1.2.3.4\tA a", "::1 localhost", "a,b , ,c", "K", "ſ", "xxxk", "abs", "some ω", "abcd\xff", "Kelvin K", "mass Å", "ǅ", "ß", "ϑ", "µ", "0.0.0.0.0.0.0.0.0.0.0.0.0.0.0.0.0.0.0.0.0.0.0.0.0.0.0.0.0.0.0.0.ip6.arpa",
 }
 
 func genNasty(rng *rand.Rand) string {
@@ -362,11 +364,30 @@ func evalC01(c string) (res Result) {
 			a := rng.IntN(len(rs))
 			b := a + 1 + rng.IntN(len(rs)-a)
 			frag := string(rs[a:b])
-			switch rng.IntN(3) {
+			switch rng.IntN(6) {
 			case 0:
 				frag = strings.ToUpper(frag)
 			case 1:
 				frag = strings.ToLower(frag)
+			case 2, 3:
+				// every rune replaced by another member of its simple-fold orbit (K / k / U+212A,
+				// s / U+017F, ...): the two strings still match under folding but their runes have
+				// different encoded widths
+				fr := []rune(frag)
+				for j := range fr {
+					for k := rng.IntN(4); k > 0; k-- {
+						fr[j] = unicode.SimpleFold(fr[j])
+					}
+				}
+				frag = string(fr)
+			case 4:
+				// a one-rune needle folding to the LAST rune of the previous string (or to what an
+				// invalid trailing byte decodes to): the match candidate sits in the final bytes
+				last, _ := utf8.DecodeLastRuneInString(lastStr)
+				for k := 1 + rng.IntN(3); k > 0; k-- {
+					last = unicode.SimpleFold(last)
+				}
+				frag = string(last)
 			}
 			v = reflect.ValueOf(frag).Convert(pt)
 		}
